@@ -12,12 +12,13 @@ import SedVerif.Drv.C19
 import SedVerif.Drv.C20
 import SedVerif.Drv.E2E
 import SedVerif.Drv.E2E3
+import SedVerif.Drv.Resolved
 /-!
 Line-protocol driver: `lake env lean --run Driver.lean`.  Imports only model files (no Mathlib).
 -/
 open Drv
 
-def handlers : List (String → Option (Rd String)) := [handleC01, handleC02, handleC04, handleC06, handleC07, handleC10, handleC12, handleC15, handleC16, handleC17, handleC19, handleC20, handleE2E, handleE2E3]
+def handlers : List (String → Option (Rd String)) := [handleC01, handleC02, handleC04, handleC06, handleC07, handleC10, handleC12, handleC15, handleC16, handleC17, handleC19, handleC20, handleE2E, handleE2E3, handleResolved]
 
 def dispatch (op : String) : Option (Rd String) :=
   handlers.findSome? (fun h => h op)
